@@ -305,3 +305,160 @@ func VerifH_C19_hash() {
 	vp.Assert("C19.hash.onekey", m.Len() == 1 && m.At(a) == 2)
 	vp.Cover("ALL.c19.hash", true)
 }
+
+// ---------------------------------------------------------------------------
+// One inductive step: from an arbitrary table that satisfies the representation invariant
+// (every live entry sits in the bucket of its hash, no two live entries are identical, length
+// counts the live entries; tombstones anywhere), one Set/Delete/At with an arbitrary key returns
+// what a map over type identity returns and re-establishes the invariant. Histories of any
+// length follow by induction for tables within the stated bucket sizes.
+func VerifH_C19_step() {
+	nkeys := 3
+	if vp.Thorough() {
+		nkeys = verifNKeys
+	}
+	var cls, grp [verifNKeys]int
+	for i := 1; i < nkeys; i++ {
+		cls[i] = vp.Choose("cls"+string(rune('0'+i)), i+1)
+	}
+	m2 := cls[1]
+	if cls[2] > m2 {
+		vp.Assume(cls[2] <= m2+1)
+		m2 = cls[2]
+	}
+	vp.Assume(cls[3] <= m2+1)
+	for c := 0; c <= m2 || (nkeys == verifNKeys && c <= cls[3]); c++ {
+		grp[c] = vp.Choose("grp"+string(rune('0'+c)), 2)
+	}
+	var keys [verifNKeys]types.Type
+	hashOf := func(i int) uint32 { return hash(keys[i]) }
+	if vp.Symbolic() {
+		for i := range keys {
+			keys[i] = types.NewNamed(types.NewTypeName(token.NoPos, nil, "K"+string(rune('0'+i)), nil), types.Typ[types.Int], nil)
+		}
+		idx := func(t types.Type) int {
+			for i, k := range keys {
+				if k == t {
+					return i
+				}
+			}
+			panic("unknown key")
+		}
+		vp.Stub("github.com/goplus/gogen/typeutil.hash", func(t types.Type) uint32 {
+			return uint32(1000 + grp[cls[idx(t)]])
+		})
+		vp.Stub("go/types.Identical", func(a, b types.Type) bool { return cls[idx(a)] == cls[idx(b)] })
+	} else {
+		var ok bool
+		keys, ok = verifRealKeys(cls, grp)
+		vp.Assume(ok)
+	}
+	// pre-state
+	maxSlots := [2]int{3, 1}
+	if vp.Thorough() {
+		maxSlots = [2]int{4, 2}
+	}
+	m := new(Map)
+	var present [verifNKeys]bool // per class
+	var val [verifNKeys]int
+	live := 0
+	for g := 0; g < 2; g++ {
+		rep := -1
+		for i := 0; i < nkeys; i++ {
+			if grp[cls[i]] == g {
+				rep = i
+				break
+			}
+		}
+		if rep < 0 {
+			continue // no key hashes into this bucket: unreachable by any operation
+		}
+		n := vp.Choose("len"+string(rune('0'+g)), maxSlots[g]+1)
+		tableAbsent := false
+		if n == 0 && g == 0 {
+			tableAbsent = vp.Choose("nobucket", 2) == 1
+		}
+		if tableAbsent {
+			continue
+		}
+		bucket := make([]entry, n)
+		for s := 0; s < n; s++ {
+			c := vp.Choose("slot"+string(rune('0'+g))+string(rune('0'+s)), nkeys+1)
+			if c == 0 {
+				continue // tombstone
+			}
+			i := c - 1
+			vp.Assume(grp[cls[i]] == g && !present[cls[i]])
+			present[cls[i]] = true
+			val[cls[i]] = 10*g + s + 1
+			bucket[s] = entry{keys[i], val[cls[i]]}
+			live++
+		}
+		if m.table == nil {
+			m.table = map[uint32][]entry{}
+		}
+		m.table[hashOf(rep)] = bucket
+	}
+	m.length = live
+	// one operation
+	op := vp.Choose("op", 3)
+	k := vp.Choose("key", nkeys)
+	kc := cls[k]
+	switch op {
+	case 0:
+		prev := m.Set(keys[k], 99)
+		if present[kc] {
+			vp.Assert("C19.step.set.prev", prev == val[kc])
+		} else {
+			vp.Assert("C19.step.set.noprev", prev == nil)
+			live++
+		}
+		present[kc], val[kc] = true, 99
+	case 1:
+		found := m.Delete(keys[k])
+		vp.Assert("C19.step.delete.found", found == present[kc])
+		if present[kc] {
+			live--
+		}
+		present[kc] = false
+	case 2:
+		got := m.At(keys[k])
+		if present[kc] {
+			vp.Assert("C19.step.at.value", got == val[kc])
+		} else {
+			vp.Assert("C19.step.at.absent", got == nil)
+		}
+	}
+	// post-state: functional content and the invariant
+	vp.Assert("C19.step.len", m.Len() == live)
+	var seen [verifNKeys]bool
+	cnt, inv := 0, true
+	for h, bucket := range m.table {
+		for _, e := range bucket {
+			if e.key == nil {
+				continue
+			}
+			cnt++
+			for i := 0; i < nkeys; i++ {
+				if keys[i] == e.key {
+					c := cls[i]
+					if seen[c] || hashOf(i) != h || !present[c] || e.value != val[c] {
+						inv = false
+					}
+					seen[c] = true
+				}
+			}
+		}
+	}
+	vp.Assert("C19.step.invariant", inv && cnt == live)
+	for i := 0; i < nkeys; i++ {
+		got := m.At(keys[i])
+		if present[cls[i]] {
+			vp.Assert("C19.step.at.after", got == val[cls[i]])
+		} else {
+			vp.Assert("C19.step.at.after.absent", got == nil)
+		}
+	}
+	vp.Assert("C19.step.keys", len(m.Keys()) == live)
+	vp.Cover("ALL.c19.step.end", true)
+}
